@@ -1,4 +1,5 @@
 """C02 - range searches and lazy key/value/item sequences are exact."""
+from ..harness import safe_repr as _srepr  # noqa: E402
 from .. import corpus, families, harness, walker
 from ..families import f32, sort_keys
 from ..harness import brief, call, eq
@@ -247,7 +248,7 @@ def check_container(fam, kind, impl, ls, rng, rec, quick):
             for emax in (False, True):
                 method = rng.choice(methods)
                 args, kw = build_args(mn, mx, emin, emax, rng)
-                rec.journal(repr((ls.describe(), ls.log, method, args, kw)))
+                rec.journal(_srepr((ls.describe(), ls.log, method, args, kw)))
                 sweep()
                 ro = call(c, method, args, kw)
                 mo = call(m, method, args, kw)
